@@ -4,7 +4,7 @@ use super::common::raw_detail;
 use crate::cfgs::{Cfg, CFGS};
 use crate::gen::{self, pick_w, Case, Limits};
 use crate::oracle::Fmt;
-use crate::runner::{catch, finish, require_counter, run_recipes, Ctx, Failure, Report, Stats};
+use crate::runner::{catch, finish, require_counter, run_recipes_opt, Ctx, Failure, Report, Stats};
 use serde_json::json;
 use std::sync::{Arc, Barrier};
 
@@ -222,7 +222,7 @@ pub fn run(ctx: &Ctx) -> i32 {
     rep.assume("only fused, cloneable iterators are generated: the code calls next() again after None in parse_number, so unfused iterators are outside 'well-behaved'");
     rep.assume("sub-check 4 runs real threads; it would expose shared mutable state, not a rare interleaving (the crate has no synchronisation points to drive)");
     let cases = ctx.cases(120_000, 6_000_000);
-    let r = run_recipes(ctx.seed, cases, ctx.threads, 16, |r, stats| {
+    let r = run_recipes_opt(ctx.seed, cases, ctx.threads, 16, true, |r, stats| {
         let fmt = if r.sel[7] & 1 == 0 { Fmt::F64 } else { Fmt::F32 };
         let c = gen_case(fmt, r, lim);
         check_case(fmt, &c, r, stats)?;
